@@ -427,6 +427,8 @@ class EquationSolver(object):
                 assert (len(self.TimeSeries[var]) == step)
                 try:
                     val = eval(eqn, globals(), initial)
+                    if type(val) is float and not isfinite(val):
+                        raise ValueError('Non-finite value calculated for variable {0}'.format(var))
                     initial[var] = val
                     decoration_values.append((var, val))
                 except NameError:
